@@ -17,7 +17,7 @@ RULE = ('Evaluation = one (array, scaling mode, user kwargs) triple pushed throu
         'distinct finite values; distinct = hash of (array, mode, kwargs).')
 ASSUMPTIONS = ['min_range/value span of at least 1e-6 (stated domain)', 'IEEE double arithmetic']
 REQUIRED = ['mode:shift-and-scale', 'mode:minmax-scale', 'mode:step-scale', 'nans_interspersed', 'value_on_step_edge',
-            'min_range_binding', 'all_nan', 'single_value', 'constant', 'in_situ', 'max_exactly_0', 'window_edge_exactly_0', 'direct_function_calls'] + ['steps%d' % k for k in range(5)]
+            'min_range_binding', 'all_nan', 'single_value', 'constant', 'in_situ', 'max_exactly_0', 'window_edge_exactly_0', 'direct_function_calls', 'integer_typed_input'] + ['steps%d' % k for k in range(5)]
 SIZES = {'quick': 24000, 'thorough': 600000}
 EPS = np.finfo(float).eps
 
@@ -88,7 +88,10 @@ def gen_mode(rng, x):
         else:
             steps = sorted(float(v) for v in rng.uniform(-1e4, 1e5, k))
         scales = [float(10 ** rng.uniform(-1, 4)) for _ in range(k + 1)]
-        if rng.uniform() < 0.3:       # recurring step lists whose inner scales recur too: only the outer scales vary
+        if rng.uniform() < 0.15:      # one fully fixed parameter set, used again and again within a process
+            k = 2
+            steps, scales = [3000.0, 8000.0], [100.0, 500.0, 1000.0]
+        elif rng.uniform() < 0.3:       # recurring step lists whose inner scales recur too: only the outer scales vary
             steps = [3000.0, 8000.0, 14000.0][:k]
             scales = [scales[0]] + [500.0, 250.0][:max(k - 1, 0)] + ([scales[-1]] if k else [])
         kw = {'steps': steps, 'scales': scales}
@@ -97,6 +100,11 @@ def gen_mode(rng, x):
             idx = np.where(~np.isnan(x))[0]
             for e in steps[:len(idx)]:
                 x[idx[int(rng.integers(len(idx)))]] = e
+    if len(fin) == len(x) and rng.uniform() < 0.12:
+        # integer-typed input (e.g. heights read as int64 / int32): same values, another dtype of the intermediates
+        xi = np.round(x).astype(np.int64 if rng.uniform() < 0.5 else np.int32)
+        if m != 'step-scale' or not any(v in set(kw['steps']) for v in x.tolist()):
+            x = xi
     return m, kw, x
 
 
@@ -104,6 +112,15 @@ def judge(x, m, kw, viol, tags):
     """All clauses for one triple; returns True when the case is non-trivial."""
     from ampycloud import scaler
     from ampycloud.plots.tools import get_scaling_kwargs
+    if x.dtype.kind in 'iu':
+        # the scaling of integer-typed values must equal the scaling of the same values as floats
+        tags.add('integer_typed_input')
+        yi = np.asarray(scaler.apply_scaling(x.copy(), m, **copy.deepcopy(kw)), dtype=float)
+        yf_ = np.asarray(scaler.apply_scaling(x.astype(float), m, **copy.deepcopy(kw)), dtype=float)
+        if yi.shape != yf_.shape or not np.allclose(yi, yf_, rtol=1e-12, atol=1e-12, equal_nan=True):
+            oracles.V(viol, 'C19', 'integer-typed input is scaled differently from the same values as floats', mode=m, kwargs=kw,
+                      x=[int(v) for v in x[:12]], as_int=[float(v) for v in yi[:6]], as_float=[float(v) for v in yf_[:6]])
+        x = x.astype(float)
     fin_mask = ~np.isnan(x)
     fin = x[fin_mask]
     wit = dict(mode=m, kwargs=kw, x=[float(v) for v in x[:12]], n=len(x))
